@@ -1,6 +1,6 @@
 """Registry entry of property C16 (see tools/registry.py)."""
 
-_PARTS = 8
+_PARTS = 7
 
 PROP = {
     "id": "C16",
@@ -32,7 +32,9 @@ PROP = {
         "Momo.Seg.C16_capacity_counts_slots",
         "Momo.Seg.C16_w64_excludes_one_point",
         "Momo.Seg.C16_machine_segItem",
+        "Momo.Seg.C16_machine_getIndex_itemCount",
         "Momo.Seg.C16_roundtrip64",
+        "Momo.Seg.C16_roundtrip64_cnst",
         "Momo.Seg.C16_offset_in_segment64",
         "Momo.Seg.C16_inverse64",
         "Momo.Seg.C16_in_order_fill64",
@@ -46,30 +48,43 @@ PROP = {
         "Momo.Seg.C16_distinct_elements_distinct_places",
         "Momo.Seg.C16_addBack_new_segment_is_next",
         "Momo.Seg.C16_capacity_is_total_slots",
+        "Momo.Seg.C16_segment_count_for_capacity_is_least",
     ],
-    # one source, eight executables: part k sweeps the k-th eighth of the index ranges and runs every 8th
-    # boundary / container configuration (they compile and run in parallel)
+    # one source, eight executables (they compile and run in parallel): an ASan+UBSan build that runs every container
+    # configuration, and 7 parts; part k sweeps the k-th seventh of the index ranges and runs every 7th boundary /
+    # container configuration
     "harnesses": [
+        {"name": "c16_seg_asan", "src": "c16_seg.cpp", "sanitize": "asan", "flags": ["-DC16_CONT_ONLY", "-DC16_PART=0", "-DC16_PARTS=1"],
+         "timeout_quick": 600, "timeout_thorough": 3000},
+    ] + [
         {"name": "c16_seg_p%d" % k, "src": "c16_seg.cpp", "flags": ["-DC16_PART=%d" % k, "-DC16_PARTS=%d" % _PARTS],
          "timeout_quick": 600, "timeout_thorough": 3000}
         for k in range(_PARTS)
     ],
     "rule": ("sweep: every index < 2^22 (thorough 2^26) x L0 0..16 x {sqrt,cnst}: (segment, offset, GetIndex, GetItemCount) of the real "
-             "functions checksummed per 2^18 block against the Lean machine model, and checked against the in-order-fill oracle (cursor that "
-             "advances by GetItemCount; round trip; offset < count); the oracle alone continues to 2^26 (thorough 2^32). bnd: every "
-             "2^k-3..2^k+3 up to 2^64-1, the sqrt class boundaries ((2^k-1)<<L0)+-2, random biased 64-bit indexes, and (segment, offset) -> "
-             "index -> (segment, offset) around the first/last segment of every class; F14 point tolerated by tag. log: Log2 (8- and "
-             "4-byte) on 0, every 2^k, 2^k+-1, all-ones, random, exhaustive < 2^18 (thorough 2^22; 4-byte: all 2^32 against clz). cont: 24 "
-             "configurations (both sizings, L0 0..16), random histories of AddBack bursts / Reserve / SetCount up+down / RemoveBack / "
-             "Shrink / Clear / Insert / address queries on real arrays with a tracking memory manager and a counting element type; after "
-             "every operation the segment list (allocation serial numbers), count, capacity and slot total are compared with the Lean "
-             "container model, recorded element addresses and values are re-checked, growth must perform 0 moves/assignments; then 40 "
-             "growth attempts with injected bad_alloc (oracle only). distinct_nontrivial counts (sizing, L0, slice) sweeps, boundary "
-             "configurations, Log2 top-bit positions, and growth operations that allocated a segment while elements were live "
-             "(keyed by configuration, operation, segment counts, element count)."),
-    "runtime_only": ["addresses of elements under growth with allocation failures (oracle inside the harness, no model)",
+             "functions checksummed per 2^18 block against the Lean machine model, and checked against the in-order-fill oracle (a "
+             "(segment, offset) cursor that advances by GetItemCount; round trip; offset < count); the oracle alone continues to 2^26 "
+             "(thorough 2^32). bnd: every 2^k-3..2^k+3 up to 2^64-1, the sqrt class boundaries ((2^k-1)<<L0)+-2, random biased 64-bit "
+             "indexes (round trip, offset < count, GetIndex(seg,0)+offset = index, successor rule), and (segment, offset) -> index -> "
+             "(segment, offset) with 5 offsets around the first/last segment of every class, every 2^k+-1 and random segments (inverse, "
+             "affine, next segment starts where this one is full); the F14 point is tolerated by tag. log: Log2 (8- and 4-byte) on 0, "
+             "every 2^k, 2^k+-1, all-ones, random, exhaustive < 2^18 (thorough 2^22; 4-byte: all 2^32 against clz). cont: 24 "
+             "configurations (both sizings, L0 in 0..16; 12 of them again in the ASan build), random histories (500 steps, thorough "
+             "2500) of AddBack bursts / Reserve / SetCount up+down / RemoveBack / Shrink / Clear / Insert / address queries with "
+             "boundary-biased arguments (count+-1, capacity+-1, segment starts +-1) on real arrays with a tracking memory manager "
+             "and a counting element type; after every operation the segment list (allocation serial numbers), count, capacity and "
+             "slot total are compared with the Lean container model, recorded element addresses and values are re-checked, growth "
+             "must perform 0 moves/assignments of elements; then 40 growth attempts with injected bad_alloc (oracle only). "
+             "distinct_nontrivial counts (sizing, L0, slice) sweeps, boundary configurations, Log2 top-bit positions, and growth "
+             "operations that allocated a segment while elements were live (keyed by configuration, operation, segment counts, "
+             "element count)."),
+    "runtime_only": ["memory safety of element access / growth / shrink on all 24 container configurations (ASan + UBSan build c16_seg_asan)",
+                     "addresses of elements under growth with allocation failures (oracle inside the harness, no model)",
                      "construct/destroy balance of the counting element type"],
     "not_modelled": ["ArrayShifter::Insert/Remove value shifting (only the Reserve + append part of Insert is modelled)",
+                     "copy / move construction, assignment and Swap of whole arrays (they create or exchange segment lists, no growth)",
+                     "the container model uses the ideal index functions; their equality with the 64-bit functions for every size_t "
+                     "argument except F14 is theorem C16_machine_* and the real container is compared with the model at run time",
                      "the nested Array<Item*> that stores the segment pointers (its own reallocation is invisible to elements)",
                      "exception roll-back inside pvIncCount/pvIncCapacity (exercised with injected bad_alloc, oracle only)",
                      "32-bit size_t builds (only the 4-byte Log2 variant is modelled and proved)"],
